@@ -527,7 +527,8 @@ class Interp:
     def x_For(self, s: ast.For, env: Env) -> None:
         it = self.eval(s.iter, env)
         gen = getattr(it, "pyvc_generic_loop", None)
-        items = gen(self, env) if gen is not None else self.iterate(it)
+        lazy = getattr(it, "pyvc_lazy_iter", None)
+        items = gen(self, env) if gen is not None else lazy(self) if lazy is not None else self.iterate(it)
         broke = False
         for item in items:
             self.assign(s.target, item, env)
